@@ -78,8 +78,8 @@ static int check_single(Choice& c, Report& rep, const std::vector<uint8_t>& pkt)
   if (new_len < len) { VP_REQUIRE(r == OPUS_BAD_ARG, "c07:pad-shrinking-accepted", "pad(len %d, new_len %d) returned %d", len, new_len, r); rep.label("pad:bad-arg"); return 0; }
   if (new_len == len) { VP_REQUIRE(r == OPUS_OK && !memcmp(b.p, pkt.data(), (size_t)len), "c07:pad-same-length", "pad(len == new_len == %d) returned %d or changed the packet", len, r); rep.label("pad:same-length"); return 0; }
   if (!f.m.ok) { VP_REQUIRE(r == OPUS_INVALID_PACKET, "c07:pad-accepts-invalid", "pad of an invalid packet (%d bytes) returned %d", len, r); rep.label("pad:invalid"); return 0; }
-  // known finding F12: padding that is not a well-formed extension sequence makes pad fail with OPUS_INTERNAL_ERROR
-  if (!f.ext_ok) { rep.label("pad:f12-class"); if (rep.exclude("F12")) return 0; }
+  // known finding F20: padding that is not a well-formed extension sequence makes pad fail with OPUS_INTERNAL_ERROR
+  if (!f.ext_ok) rep.label("pad:f20-class");   // fixed finding F20 (repo commit bbb9d66b)
   VP_REQUIRE(r == OPUS_OK, !f.ext_ok ? "c07:pad-fails-on-arbitrary-padding" : "c07:pad-error", "pad(%d -> %d) of a valid packet (%d frames, code %d, padding %d bytes, %zu extensions) returned %d", len, new_len, f.m.count, pkt[0] & 3, f.m.padding_len, total(f.exts), r);
   Facts g = facts_of(b.p, new_len, false);
   VP_REQUIRE(g.m.ok, "c07:pad-invalid-packet", "pad(%d -> %d): the %d bytes are not a valid packet", len, new_len, new_len);
@@ -179,14 +179,15 @@ static int check_multistream(Choice& c, Report& rep) {
   if (new_len == len) { VP_REQUIRE(r == OPUS_OK && !memcmp(b.p, all.data(), (size_t)len), "c07:ms-pad-same-length", "ms pad(len == new_len) returned %d or changed the packet", r); return 0; }
   if (!valid) { VP_REQUIRE(r < 0, "c07:ms-pad-accepts-invalid", "ms pad of an invalid %d-stream packet returned %d", n, r); rep.label("ms:pad-invalid"); return 0; }
   const Facts& last = st[(size_t)(n - 1)];
-  if (!last.ext_ok) { rep.label("pad:f12-class"); if (rep.exclude("F12")) return 0; }
+  if (!last.ext_ok) rep.label("pad:f20-class");   // fixed finding F20 (repo commit bbb9d66b)
   VP_REQUIRE(r == OPUS_OK, !last.ext_ok ? "c07:pad-fails-on-arbitrary-padding" : "c07:ms-pad-error", "ms pad(%d -> %d, %d streams) returned %d", len, new_len, n, r);
   std::vector<Facts> st2; std::vector<int> off2;
   VP_REQUIRE(split_streams(b.p, new_len, n, st2, off2), "c07:ms-pad-invalid-packet", "ms pad(%d -> %d, %d streams): result does not split into %d valid streams of exactly that length", len, new_len, n, n);
   for (int s = 0; s < n; s++) {
     const Facts& a = st[(size_t)s]; const Facts& g = st2[(size_t)s];
     VP_REQUIRE((a.m.toc & 0xFC) == (g.m.toc & 0xFC) && !pk::frames_differ(all.data() + off[(size_t)s], a.m, b.p + off2[(size_t)s], g.m), "c07:ms-pad-frames-differ", "ms pad: stream %d of %d changed its frames or configuration", s, n);
-    VP_REQUIRE(g.ext_ok == a.ext_ok && first_diff(a.exts, g.exts) < 0, "c07:ms-pad-extensions-differ", "ms pad: stream %d of %d changed its extensions", s, n);
+    // padding that is not an extension sequence carries no extensions: a re-padded stream then has well-formed, extension-free padding
+    VP_REQUIRE(a.ext_ok ? (g.ext_ok && first_diff(a.exts, g.exts) < 0) : (total(g.exts) == 0), "c07:ms-pad-extensions-differ", "ms pad: stream %d of %d changed its extensions", s, n);
   }
   rep.label(n >= 2 ? "ms:pad-multi" : "ms:pad-1-stream");
   if ((last.m.padding_len < 254) != (st2[(size_t)(n - 1)].m.padding_len < 254)) { rep.label("pad:crosses-255"); rep.nontrivial(); }
